@@ -1,7 +1,458 @@
 package main
 
+// effects.go — a small interprocedural may-write analysis over SSA (group D: C14, C17, C18).
+//
+// For every function of the nutsdb packages the set of abstract heap locations it may write is computed
+// (field stores `T.f`, element stores `T.f[]`, map updates `T.f{}`, package globals `global:x`), closed over
+// static callees, closures and — for interface calls — every method of that name in the nutsdb packages.
+// Writes into objects the function allocated itself (or obtained from a constructor New*/new*) are local
+// and not reported; neither are the transaction's own fields (`Tx.*`), which no other goroutine sees.
+// The result for every exported method of Tx and DB goes into NutsGen.F.effects; lock operations
+// (`db.mu.Lock/RLock/Unlock/RUnlock`) reached from each method go into NutsGen.F.lockOps.
+//
+// The analysis is deliberately coarse (flow-insensitive, type-and-field based); it is an over-approximation
+// of the writes that can happen, which is what `ReadPure` needs.
+
 import (
+	"fmt"
+	"go/types"
+	"sort"
+	"strings"
+
 	"golang.org/x/tools/go/ssa"
 )
 
-func effectFacts(prog *ssa.Program, sp *ssa.Package) string { return "" }
+type effAnalysis struct {
+	prog    *ssa.Program
+	ours    map[*ssa.Package]bool
+	direct  map[*ssa.Function]map[string]bool
+	locks   map[*ssa.Function]map[string]bool
+	callees map[*ssa.Function]map[*ssa.Function]bool
+	byName  map[string][]*ssa.Function // method name -> methods in our packages
+}
+
+func typeName(t types.Type) string {
+	for {
+		switch u := t.(type) {
+		case *types.Pointer:
+			t = u.Elem()
+			continue
+		case *types.Named:
+			return u.Obj().Name()
+		case *types.Slice:
+			return "[]" + typeName(u.Elem())
+		case *types.Map:
+			return "map"
+		case *types.Array:
+			return "[n]" + typeName(u.Elem())
+		}
+		return t.String()
+	}
+}
+
+func isConstructor(fn *ssa.Function) bool {
+	n := fn.Name()
+	return strings.HasPrefix(n, "New") || strings.HasPrefix(n, "new") || strings.HasPrefix(n, "make")
+}
+
+var freshMemo = map[*ssa.Function]int{} // 0 unknown, 1 in progress, 2 fresh, 3 not fresh
+
+// returnsFresh: every pointer-like result of fn is an object fn allocated itself (a constructor in effect)
+func returnsFresh(fn *ssa.Function) bool {
+	if fn == nil || fn.Blocks == nil {
+		return false
+	}
+	switch freshMemo[fn] {
+	case 1, 2:
+		return true
+	case 3:
+		return false
+	}
+	freshMemo[fn] = 1
+	ok := true
+	for _, b := range fn.Blocks {
+		for _, ins := range b.Instrs {
+			if r, isRet := ins.(*ssa.Return); isRet {
+				for _, res := range r.Results {
+					switch res.Type().Underlying().(type) {
+					case *types.Pointer, *types.Slice, *types.Map:
+						if c, isC := res.(*ssa.Const); isC && c.IsNil() {
+							continue
+						}
+						if !isLocalRoot(res, 0) {
+							ok = false
+						}
+					}
+				}
+			}
+		}
+	}
+	if ok {
+		freshMemo[fn] = 2
+	} else {
+		freshMemo[fn] = 3
+	}
+	return ok
+}
+
+var localVisiting = map[ssa.Value]bool{}
+
+// isLocalRoot: does the object that `v` points into belong to the function itself?
+func isLocalRoot(v ssa.Value, depth int) bool {
+	if depth > 60 {
+		return false
+	}
+	if localVisiting[v] {
+		return true // a cycle through phi/append: decided by the other edges
+	}
+	localVisiting[v] = true
+	defer delete(localVisiting, v)
+	switch x := v.(type) {
+	case *ssa.Alloc, *ssa.MakeMap, *ssa.MakeSlice, *ssa.MakeChan, *ssa.MakeInterface, *ssa.MakeClosure:
+		return true
+	case *ssa.FieldAddr:
+		return isLocalRoot(x.X, depth+1)
+	case *ssa.IndexAddr:
+		return isLocalRoot(x.X, depth+1)
+	case *ssa.Slice:
+		return isLocalRoot(x.X, depth+1)
+	case *ssa.Phi:
+		for _, e := range x.Edges {
+			if !isLocalRoot(e, depth+1) {
+				return false
+			}
+		}
+		return true
+	case *ssa.Call:
+		if c := x.Call.StaticCallee(); c != nil && (isConstructor(c) || returnsFresh(c)) {
+			return true
+		}
+		// append(local, …) stays local
+		if b, ok := x.Call.Value.(*ssa.Builtin); ok && b.Name() == "append" && len(x.Call.Args) > 0 {
+			return isLocalRoot(x.Call.Args[0], depth+1)
+		}
+		return false
+	case *ssa.UnOp:
+		// a load: the loaded pointer/slice/map is local only if it was loaded from a local variable that
+		// holds a local object — approximated by "loaded from an Alloc that is never stored a non-local"
+		// a load from a field of an object this function allocated: local if everything stored there is
+		if fa, ok := x.X.(*ssa.FieldAddr); ok && isLocalRoot(fa.X, depth+1) {
+			if fa.Parent() != nil {
+				for _, b := range fa.Parent().Blocks {
+					for _, ins := range b.Instrs {
+						st, ok := ins.(*ssa.Store)
+						if !ok {
+							continue
+						}
+						if fb, ok := st.Addr.(*ssa.FieldAddr); ok && fb.Field == fa.Field && fb.X == fa.X {
+							if !isLocalRoot(st.Val, depth+1) {
+								return false
+							}
+						}
+					}
+				}
+			}
+			return true
+		}
+		if a, ok := x.X.(*ssa.Alloc); ok {
+			for _, r := range *a.Referrers() {
+				if st, ok := r.(*ssa.Store); ok && st.Addr == a {
+					if !isLocalRoot(st.Val, depth+1) {
+						return false
+					}
+				}
+			}
+			return true
+		}
+		return false
+	case *ssa.Extract:
+		if c, ok := x.Tuple.(*ssa.Call); ok {
+			if f := c.Call.StaticCallee(); f != nil && (isConstructor(f) || returnsFresh(f)) {
+				return true
+			}
+		}
+		return false
+	case *ssa.Const:
+		return true
+	}
+	return false
+}
+
+func locOfAddr(v ssa.Value) string {
+	switch x := v.(type) {
+	case *ssa.FieldAddr:
+		st := x.X.Type().Underlying().(*types.Pointer).Elem()
+		name := typeName(st)
+		if s, ok := st.Underlying().(*types.Struct); ok {
+			return name + "." + s.Field(x.Field).Name()
+		}
+		return name + ".?"
+	case *ssa.IndexAddr:
+		return locOfVal(x.X) + "[]"
+	case *ssa.Global:
+		return "global:" + x.Name()
+	case *ssa.Parameter:
+		return typeName(x.Type()) + ".*"
+	case *ssa.UnOp:
+		return locOfVal(x)
+	}
+	return typeName(v.Type()) + ".*"
+}
+
+// locOfVal: where does this slice / map / pointer value come from?
+func locOfVal(v ssa.Value) string {
+	switch x := v.(type) {
+	case *ssa.UnOp:
+		if x.Op.String() == "*" {
+			return locOfAddr(x.X)
+		}
+	case *ssa.Slice:
+		return locOfVal(x.X)
+	case *ssa.Field:
+		st := x.X.Type()
+		if s, ok := st.Underlying().(*types.Struct); ok {
+			return typeName(st) + "." + s.Field(x.Field).Name()
+		}
+	case *ssa.Global:
+		return "global:" + x.Name()
+	case *ssa.Parameter:
+		return "param:" + typeName(x.Type())
+	case *ssa.Phi:
+		if len(x.Edges) > 0 {
+			return locOfVal(x.Edges[0])
+		}
+	}
+	return typeName(v.Type())
+}
+
+func (a *effAnalysis) analyse(fn *ssa.Function) {
+	if _, ok := a.direct[fn]; ok {
+		return
+	}
+	w := map[string]bool{}
+	l := map[string]bool{}
+	cs := map[*ssa.Function]bool{}
+	a.direct[fn], a.locks[fn], a.callees[fn] = w, l, cs
+	for _, an := range fn.AnonFuncs {
+		cs[an] = true
+	}
+	for _, b := range fn.Blocks {
+		for _, ins := range b.Instrs {
+			switch x := ins.(type) {
+			case *ssa.Store:
+				if !isLocalRoot(x.Addr, 0) {
+					w[locOfAddr(x.Addr)] = true
+				}
+			case *ssa.MapUpdate:
+				if !isLocalRoot(x.Map, 0) {
+					w[locOfVal(x.Map)+"{}"] = true
+				}
+			}
+			call, ok := ins.(ssa.CallInstruction)
+			if !ok {
+				continue
+			}
+			com := call.Common()
+			if bi, ok := com.Value.(*ssa.Builtin); ok {
+				switch bi.Name() {
+				case "delete":
+					if !isLocalRoot(com.Args[0], 0) {
+						w[locOfVal(com.Args[0])+"{}"] = true
+					}
+				case "copy":
+					if !isLocalRoot(com.Args[0], 0) {
+						w[locOfVal(com.Args[0])+"[]"] = true
+					}
+				}
+				continue
+			}
+			if com.IsInvoke() {
+				// interface call: the method of every type of our packages that implements the interface
+				iface, _ := com.Value.Type().Underlying().(*types.Interface)
+				for _, m := range a.byName[com.Method.Name()] {
+					if iface == nil || m.Signature.Recv() == nil || types.Implements(m.Signature.Recv().Type(), iface) {
+						cs[m] = true
+					}
+				}
+				continue
+			}
+			callee := com.StaticCallee()
+			if callee == nil {
+				continue
+			}
+			if callee.Pkg != nil && a.ours[callee.Pkg] {
+				cs[callee] = true
+				continue
+			}
+			// calls leaving our packages: the mutex, sort, os
+			full := callee.String()
+			switch {
+			case strings.HasPrefix(full, "(*sync.RWMutex).") || strings.HasPrefix(full, "(*sync.Mutex)."):
+				// which mutex: the location of the receiver
+				recv := "?"
+				if len(com.Args) > 0 {
+					recv = locOfAddr(com.Args[0])
+				}
+				if !strings.HasPrefix(recv, "global:verif") {
+					l[recv+"."+callee.Name()] = true
+				}
+			case callee.Pkg != nil && callee.Pkg.Pkg.Path() == "sort":
+				// sorting in place: a plain local slice is harmless; a wrapper value (sort.Sort(w{shared slice})) is
+				// reported by its dynamic type
+				if len(com.Args) > 0 {
+					arg := com.Args[0]
+					if mi, ok := arg.(*ssa.MakeInterface); ok {
+						w["sort:"+typeName(mi.X.Type())] = true
+					} else if !isLocalRoot(arg, 0) {
+						w["sort:"+locOfVal(arg)] = true
+					}
+				}
+			}
+		}
+	}
+}
+
+func (a *effAnalysis) closure(fn *ssa.Function) (map[string]bool, map[string]bool) {
+	seen := map[*ssa.Function]bool{}
+	w, l := map[string]bool{}, map[string]bool{}
+	var visit func(f *ssa.Function)
+	visit = func(f *ssa.Function) {
+		if seen[f] || f.Blocks == nil {
+			return
+		}
+		seen[f] = true
+		a.analyse(f)
+		for k := range a.direct[f] {
+			w[k] = true
+		}
+		for k := range a.locks[f] {
+			l[k] = true
+		}
+		for c := range a.callees[f] {
+			visit(c)
+		}
+	}
+	visit(fn)
+	return w, l
+}
+
+func effectFacts(prog *ssa.Program, sp *ssa.Package) string {
+	a := &effAnalysis{prog: prog, ours: map[*ssa.Package]bool{}, direct: map[*ssa.Function]map[string]bool{},
+		locks: map[*ssa.Function]map[string]bool{}, callees: map[*ssa.Function]map[*ssa.Function]bool{}, byName: map[string][]*ssa.Function{}}
+	for _, p := range prog.AllPackages() {
+		if strings.HasPrefix(p.Pkg.Path(), root) {
+			a.ours[p] = true
+		}
+	}
+	// methods by name (for interface calls)
+	for p := range a.ours {
+		for _, m := range p.Members {
+			if t, ok := m.(*ssa.Type); ok {
+				for _, typ := range []types.Type{t.Type(), types.NewPointer(t.Type())} {
+					ms := prog.MethodSets.MethodSet(typ)
+					for i := 0; i < ms.Len(); i++ {
+						if f := prog.MethodValue(ms.At(i)); f != nil {
+							a.byName[f.Name()] = append(a.byName[f.Name()], f)
+						}
+					}
+				}
+			}
+		}
+	}
+	var sb strings.Builder
+	sb.WriteString("\n/-- per exported method of Tx and DB (receiver, name): shared heap locations it may write (type.field,\n[] = element, {} = map entry, sort:x = sorted in place) and package-level variables it may write, closed over\ncallees; objects allocated by the function itself and the transaction's own fields are left out -/\ndef effects : List (String × String × List String × List String) := [\n")
+	var rows, lockRows []string
+	for _, tn := range []string{"DB", "Tx"} {
+		t := sp.Type(tn)
+		ms := prog.MethodSets.MethodSet(types.NewPointer(t.Type()))
+		for i := 0; i < ms.Len(); i++ {
+			sel := ms.At(i)
+			if !sel.Obj().Exported() || strings.HasPrefix(sel.Obj().Name(), "Verif") {
+				continue
+			}
+			fn := prog.MethodValue(sel)
+			w, l := a.closure(fn)
+			var ws, gs, ls, gls []string
+			for k := range w {
+				// the transaction's own fields; the harness hooks; byte buffers handed down by the caller
+				if strings.HasPrefix(k, "Tx.") || strings.HasPrefix(k, "global:verif") || k == "param:[]byte[]" {
+					continue
+				}
+				if strings.HasPrefix(k, "global:") {
+					gs = append(gs, leanStr(strings.TrimPrefix(k, "global:")))
+				} else {
+					ws = append(ws, leanStr(k))
+				}
+			}
+			for k := range l {
+				if strings.HasPrefix(k, "global:") {
+					gls = append(gls, leanStr(strings.TrimPrefix(k, "global:")))
+				} else {
+					ls = append(ls, leanStr(k))
+				}
+			}
+			sort.Strings(ws)
+			sort.Strings(gs)
+			sort.Strings(ls)
+			sort.Strings(gls)
+			rows = append(rows, fmt.Sprintf("  (%s, %s, [%s], [%s])", leanStr(tn), leanStr(sel.Obj().Name()), strings.Join(ws, ", "), strings.Join(gs, ", ")))
+			lockRows = append(lockRows, fmt.Sprintf("  (%s, %s, [%s], [%s])", leanStr(tn), leanStr(sel.Obj().Name()), strings.Join(ls, ", "), strings.Join(gls, ", ")))
+		}
+	}
+	sb.WriteString(strings.Join(rows, ",\n") + "]\n\n")
+	sb.WriteString("/-- per exported method: mutex operations reachable from it (on fields; on package-level mutexes) -/\ndef lockOps : List (String × String × List String × List String) := [\n" + strings.Join(lockRows, ",\n") + "]\n\n")
+	// the two lock primitives of a transaction, as (function, mutex operations in it)
+	var prim []string
+	for _, n := range []string{"lock", "unlock"} {
+		for _, f := range a.byName[n] {
+			if f.Signature.Recv() != nil && typeName(f.Signature.Recv().Type()) == "Tx" {
+				a.analyse(f)
+				var ls []string
+				for k := range a.locks[f] {
+					ls = append(ls, leanStr(k))
+				}
+				sort.Strings(ls)
+				prim = append(prim, fmt.Sprintf("(%s, [%s])", leanStr("Tx."+n), strings.Join(ls, ", ")))
+			}
+		}
+	}
+	sort.Strings(prim)
+	sb.WriteString("/-- the mutex operations inside Tx.lock and Tx.unlock -/\ndef lockPrims : List (String × List String) := [" + strings.Join(prim, ", ") + "]\n")
+	// what DB.Merge itself (its own body, not its callees) writes and which mutex operations it performs
+	if t := sp.Type("DB"); t != nil {
+		ms := prog.MethodSets.MethodSet(types.NewPointer(t.Type()))
+		for i := 0; i < ms.Len(); i++ {
+			if ms.At(i).Obj().Name() == "Merge" {
+				fn := prog.MethodValue(ms.At(i))
+				a.analyse(fn)
+				var ws, ls []string
+				for k := range a.direct[fn] {
+					ws = append(ws, leanStr(k))
+				}
+				for k := range a.locks[fn] {
+					ls = append(ls, leanStr(k))
+				}
+				sort.Strings(ws)
+				sort.Strings(ls)
+				fmt.Fprintf(&sb, "/-- DB.Merge's own body: shared locations written, mutex operations performed -/\ndef mergeBody : List String × List String := ([%s], [%s])\n", strings.Join(ws, ", "), strings.Join(ls, ", "))
+				// the functions of the nutsdb packages that Merge's body calls directly (what it does to shared state
+				// beyond its own stores goes through these)
+				var cl []string
+				seenC := map[string]bool{}
+				for cf := range a.callees[fn] {
+					n := cf.Name()
+					if cf.Signature.Recv() != nil {
+						n = typeName(cf.Signature.Recv().Type()) + "." + n
+					}
+					if !seenC[n] && !strings.HasPrefix(n, "verif") {
+						seenC[n] = true
+						cl = append(cl, leanStr(n))
+					}
+				}
+				sort.Strings(cl)
+				fmt.Fprintf(&sb, "/-- functions of the nutsdb packages called directly from DB.Merge's body -/\ndef mergeCalls : List String := [%s]\n", strings.Join(cl, ", "))
+			}
+		}
+	}
+	return sb.String()
+}
